@@ -1,8 +1,12 @@
 package checks
 
+import "crypto/sha1"
+
 func tailStrings(s []string, n int) []string {
 	if len(s) <= n {
 		return s
 	}
 	return s[len(s)-n:]
 }
+
+func sha1sum(b []byte) [20]byte { return sha1.Sum(b) }
